@@ -156,3 +156,15 @@ PROPS["C17"] = {
     "assumptions": ["lock points are sufficient scheduling points: the only shared mutable state of the sync flavours is inside the per-node RwLock", "fairness of std's RwLock is left open by its contract; both a permissive and a writer-preferring policy are explored", "known findings are matched by exact scenario + anomaly kinds + bad-outcome signature; see known_findings.json"],
     "timeout": {"quick": 600, "thorough": 3400},
 }
+
+PROPS["C17"]["phases"] = {
+    "quick": [{"cmd": "stress", "shards": 16, "args": ["--iterations", "150", "--ops", "300"]}],
+    "thorough": [{"cmd": "conc", "shards": 16, "args": ["--shapes", "2+1:1,1+1+1:0", "--budget", "3000", "--stride", "25"]},
+                 {"cmd": "stress", "shards": 16, "args": ["--iterations", "6000", "--ops", "400"]}],
+}
+PROPS["C17"]["miri"] = {
+    "quick": {"cmd": "conc_free", "procs": 18, "args": [], "per_proc_args": (lambda i: ["--index", str(i // 2)]), "miriflags": "-Zmiri-many-seeds=0..6", "timeout": 900},
+    "thorough": {"cmd": "conc_free", "procs": 18, "args": [], "per_proc_args": (lambda i: ["--index", str(i // 2)]), "miriflags": "-Zmiri-many-seeds=0..48", "timeout": 3000},
+}
+PROPS["C17"]["rule"] += " Two further layers, restricted to call pairs without open finding: free-running stress (3 real threads, real futex lock, seeded yields/spins injected at lock points; families owned-pairs and one-writer; oracles: no deadlock by a no-progress + all-threads-asleep criterion, no panic/poison, per-pair conservation of edges, invariant walkers at quiescence) and nine small scenarios run with real threads under Miri with many seeds (deadlock, data race, UB, serialisability of the outcome)."
+PROPS["C17"]["require"]["any"] += ["stress_iterations", "stress.injected_yields", "stress.acquisitions_that_had_to_block", "miri.free_runs"]
